@@ -213,6 +213,7 @@ fn racy_module_world(rng: &mut Rng) -> GWorld {
     via_header: false,
     items,
     x_ts_types: None,
+    source_map: None,
     broken: false,
     serve,
   };
